@@ -4111,6 +4111,7 @@ def apply_delta(
     if not isinstance(delta, bytes):
         delta = b"".join(delta)
     out = []
+    out_len = 0
     index = 0
     delta_length = len(delta)
 
@@ -4166,17 +4167,28 @@ def apply_delta(
                     cp_size |= x << (i * 8)
             if cp_size == 0:
                 cp_size = 0x10000
+            # Like the Rust implementation, never produce more than the
+            # declared size: otherwise a small delta made of many copy
+            # operations builds an arbitrarily large output before the final
+            # size check rejects it.
             if (
                 cp_off + cp_size < cp_size
                 or cp_off + cp_size > src_size
                 or cp_size > dest_size
+                or out_len > dest_size - cp_size
             ):
                 break
             out.append(src_buf[cp_off : cp_off + cp_size])
+            out_len += cp_size
         elif cmd != 0:
+            if cmd > dest_size:
+                break
+            if out_len + cmd > dest_size:
+                raise ApplyDeltaError("Not enough space to copy")
             if index + cmd > delta_length:
                 raise ApplyDeltaError("delta truncated in insert op")
             out.append(delta[index : index + cmd])
+            out_len += cmd
             index += cmd
         else:
             raise ApplyDeltaError("Invalid opcode 0")
